@@ -160,6 +160,22 @@ fn c19_tracker_directions_separate() {
     let r = check_ts_tcp(&mut cache, &c, false, kani::any());
     assert!(r.0.is_none() && r.1.is_none());
 }
+#[kani::proof]
+#[kani::unwind(6)]
+#[kani::stub(alloc::fmt::format, stub_format)]
+#[kani::stub(get_unix_time_ms, stub_now)]
+fn c19_tracker_reverse_direction_separate() {
+    // the two directions of a connection are tracked separately also when the labelling rule gives both
+    // endpoints the same label (non-handshake segments between two high ports): the first timestamped
+    // segment of B -> A must not be measured against A -> B's reference
+    let mut cache: TtlCache<ConnectionKey, TcpTimestamp> = TtlCache::new(4);
+    let c = conn();
+    let rev = Connection { src_ip: c.dst_ip, src_port: c.dst_port, dst_ip: c.src_ip, dst_port: c.src_port };
+    let label: bool = kani::any();
+    let _ = check_ts_tcp(&mut cache, &c, label, kani::any());
+    let r = check_ts_tcp(&mut cache, &rev, label, kani::any());
+    assert!(r.0.is_none() && r.1.is_none());
+}
 
 // ---------------------------------------------------------------- labelling rule
 use crate::tcp_process::is_packet_from_client;
